@@ -295,22 +295,23 @@ namespace smt
         case 1:
         {
             auto it = l.vars.cbegin();
-            c_lb += lb(it->first) * it->second + l.known_term;
-            c_ub += ub(it->first) * it->second + l.known_term;
+            c_lb += (is_positive(it->second) ? lb(it->first) : ub(it->first)) * it->second + l.known_term;
+            c_ub += (is_positive(it->second) ? ub(it->first) : lb(it->first)) * it->second + l.known_term;
             break;
         }
         case 2:
         {
-            const auto expr = l / l.vars.cbegin()->second;
+            const rational c = l.vars.cbegin()->second; // the coefficient of the first variable..
+            const auto expr = l / c;
             auto it = expr.vars.cbegin();
             const auto [v0, c0] = *it++;
             assert(c0 == rational::ONE);
             const auto [v1, c1] = *it;
             if (c1 != -rational::ONE)
                 throw std::invalid_argument("not a valid real difference logic expression..");
-            const auto dist = distance(v0, v1);
-            c_lb += dist.first + expr.known_term;
-            c_ub += dist.second + expr.known_term;
+            const auto dist = distance(v1, v0); // the bounds of v0 - v1..
+            c_lb += (is_positive(c) ? dist.first : dist.second) * c + l.known_term;
+            c_ub += (is_positive(c) ? dist.second : dist.first) * c + l.known_term;
             break;
         }
         default:
